@@ -72,6 +72,17 @@ def step' (w : W) (line : String) : W × String :=
          let w := apply w k acts
          let ran := match owner with | some id => toString id | none => "?"
          fin w s!"ok ran={ran}"
+       | "drel", _ =>
+         -- `drel k skip=0|1`: dispatch with the owner's Release() loop running concurrently (joined before the observation).
+         -- skip=1: Release held the token when the poller tried `do()`: the event is skipped (and fetched again later)
+         let k := toNat! id
+         let s := getSlot w k
+         let owner := (w.conns.find? (fun (_, sl, g) => sl == k && some g == s.cbGen)).map (·.1)
+         if sl == "skip=1" then fin (apply w k [.liveRelease, .doEv, .liveDone]) "ok ran=none"
+         else
+           let w := apply w k [.liveRelease, .liveDone, .doEv, .doneEv, .liveRelease, .liveDone]
+           let ran := match owner with | some id => toString id | none => "?"
+           fin w s!"ok ran={ran}"
        | _, _ => (w, "bad-op"))
     else
     match kv sl "slot" with
@@ -119,6 +130,11 @@ def step' (w : W) (line : String) : W × String :=
       | none => []
     fin (ks.foldl (fun w k => apply w k [.unused, .reset, .freeable, .closeFd (getSlot w k).gen]) w) "ok"
   | ["send", _] => fin w "ok"
+  -- Release() on a live connection between poller steps: do(); reset tail; done() – the slot is as before
+  | ["rel", id] =>
+    (match w.conns.find? (·.1 == toNat! id) with
+     | some (_, k, _) => fin (apply w k [.liveRelease, .liveDone]) "ok"
+     | none => (w, "bad-op"))
   | ["drain", l] =>
     -- the harness takes every operator of the free chain; a modelled slot among them is taken like a new owner would
     let ks := if l == "-" then [] else (l.splitOn ",").map toNat!
